@@ -7,8 +7,12 @@ from symprov.oblig import Obligation
 from harness.common import EX, TIMES, new_doc, stub_logging_str
 
 FORMATS = ["json", "provn", "xml", "rdf"]
-FAULTS = ["none", "write#1", "write#2", "write#3", "final move"]
+FAULTS = ["none", "write#1", "write#2", "write#3", "flush/close", "final move"]
 PRELOAD = ("prov.model", "prov.serializers.provjson", "prov.serializers.provn", "prov.serializers.provxml", "prov.serializers.provrdf")
+
+
+CATALOGUE = ["Q3%20report.json", "caf%C3%A9.json", "%41", "100%.json", "a b.json", "é中.json", "x#y.json", "q?z=1.json", "a;b.json", "c:d.json",
+             "file.tmp", "~tilde", "-dash", "name.with.many.dots.json", "%2e%2e", "trailing.", "UPPER.JSON", "prov.json.tmp"]
 
 
 class InjectedFault(OSError):
@@ -152,14 +156,38 @@ def _doc():
 # Stage B: the real file system in a scratch directory, with fault injection at stream writes and at the final move
 # --------------------------------------------------------------------------------------------------------------------
 class _FaultyStream:
+    """buffered writer over the real file: data reach the file only at flush/close (as with io.BufferedWriter for
+    small documents), so a failure at flush/close means NOTHING was written"""
+
     def __init__(self, real, state):
         self._r, self._s = real, state
+        self._buf = []
+        self._closed = False
 
     def write(self, data):
         self._s["writes"] += 1
         if self._s["fault"] == "write#%d" % self._s["writes"]:
             raise InjectedFault("injected failure at write #%d" % self._s["writes"])
-        return self._r.write(data)
+        self._buf.append(data)
+        return len(data)
+
+    def flush(self):
+        if self._s["fault"] == "flush/close":
+            self._buf = []
+            raise InjectedFault("injected failure at flush/close (e.g. disk full): buffered data lost")
+        for d in self._buf:
+            self._r.write(d)
+        self._buf = []
+        self._r.flush()
+
+    def close(self):
+        if self._closed:
+            return
+        self._closed = True
+        try:
+            self.flush()
+        finally:
+            self._r.close()
 
     def __getattr__(self, k):
         return getattr(self._r, k)
@@ -168,7 +196,7 @@ class _FaultyStream:
         return self
 
     def __exit__(self, *a):
-        self._r.close()
+        self.close()
         return False
 
 
@@ -236,6 +264,12 @@ def _run_real(ctx, name, fmt, fault, preexisting):
         if preexisting:
             with open(name, "wb") as f:
                 f.write(old)
+        siblings = {}
+        for sib in (name + ".tmp", name + ".bak", name + "~", "tmp" + name, "." + name + ".swp"):
+            if len(sib.encode("utf-8")) < 200 and sib != name:
+                with open(sib, "wb") as f:
+                    f.write(b"sibling " + sib.encode("utf-8"))
+                siblings[sib] = b"sibling " + sib.encode("utf-8")
         tempfile.tempdir = othertmp
         pm.os, pm.shutil = os_proxy, sh_proxy
         pm.open = opener
@@ -250,7 +284,13 @@ def _run_real(ctx, name, fmt, fault, preexisting):
                 pm.__dict__.pop("open", None)
             else:
                 pm.open = saved[3]
-        listing = sorted(os.listdir(scratch))
+        for sib, data in siblings.items():
+            ok = os.path.exists(os.path.join(scratch, sib))
+            if ok:
+                with open(os.path.join(scratch, sib), "rb") as f:
+                    ok = f.read() == data
+            ctx.check(ok, "serialize(destination=%r) modified or removed the unrelated file %r" % (name, sib))
+        listing = sorted(x for x in os.listdir(scratch) if x not in siblings)
         content = None
         if os.path.exists(os.path.join(scratch, name)):
             with open(os.path.join(scratch, name), "rb") as f:
@@ -321,16 +361,20 @@ def write_to_path(ctx):
             name.encode("utf-8")
         except UnicodeEncodeError:
             return
-        for fmt in FORMATS:
-            for fault in FAULTS:
-                for pre in (False, True):
-                    _run_real(ctx, name, fmt, fault, pre)
+        names = [name]
+        if ctx.params.get("catalogue") and name == "a":
+            names = CATALOGUE  # names no branch of the code singles out (the solver has no reason to produce them)
+        for nm in names:
+            for fmt in FORMATS:
+                for fault in FAULTS:
+                    for pre in (False, True):
+                        _run_real(ctx, nm, fmt, fault, pre)
     ctx.observe("n", len(FORMATS) * len(FAULTS) * 2)
 
 
 def _shards(tier):
     n = 3 if tier == "quick" else 4
-    return [{"first": f, "n": n} for f in range(4)]
+    return [{"first": f, "n": n} for f in range(4)] + [{"first": 1, "n": 1, "catalogue": True}]
 
 
 OBLIGATIONS = [
